@@ -119,6 +119,7 @@ type Obligation struct {
 	Extra  []*smt.Term
 	Cands  []*smt.Term // candidate index terms for instantiation
 	InFunc string      // function whose body produced the obligation (inlined callee)
+	Results []Value    // result values at the return site (post obligations)
 }
 
 func (o *Obligation) Name() string {
@@ -164,6 +165,8 @@ type Exec struct {
 	quantNames map[int]*smt.Term
 	macroEqs   []macroEq
 	FrameSites int // write sites examined by the frame check
+	RevealAll  bool // unfold every opaque predicate (used to obtain faithful counterexamples)
+	SmallLen   uint64 // when non-zero: every pre-existing slice has at most this capacity (replay search)
 	curRecBase map[string]int
 	funcsMemo  map[*ssa.Function]bool
 	mu         sync.Mutex
@@ -171,6 +174,7 @@ type Exec struct {
 	seqByKey   map[string]*smt.Term
 	preWrites  int
 	assigns    []*Loc
+	assignsReach []Value // everything reachable from these values may be written
 	assignsAny bool
 }
 
@@ -339,7 +343,7 @@ func (e *Exec) fromTerm(T types.Type, t *smt.Term, name string) Value {
 		e.addAxioms(
 			c.BVSle(c.BVC(uint64(0), 64), reg),
 			c.BVSle(z, ln), c.BVSle(ln, cp),
-			c.BVSle(cp, c.BVC(maxLen, 64)),
+			c.BVSle(cp, c.BVC(e.lenBound(), 64)),
 			c.Implies(isnil, c.Eq(cp, z)))
 		return &SliceV{Elem: u.Elem(), Len: ln, Cap: cp, Alts: []SliceAlt{
 			{Cond: isnil},
@@ -350,7 +354,11 @@ func (e *Exec) fromTerm(T types.Type, t *smt.Term, name string) Value {
 		s := &StructV{T: u, F: make([]Value, u.NumFields()), Origin: t}
 		s.lazy = func(i int) Value {
 			ft := u.Field(i).Type()
-			return e.fromTerm(ft, c.App(fmt.Sprintf("fld_%s_%s", sn, u.Field(i).Name()), sortOf(ft), t), name+"."+u.Field(i).Name())
+			fname := u.Field(i).Name()
+			if fname == "_" {
+				fname = fmt.Sprintf("_blank%d", i)
+			}
+			return e.fromTerm(ft, c.App(fmt.Sprintf("fld_%s_%s", sn, fname), sortOf(ft), t), name+"."+u.Field(i).Name())
 		}
 		return s
 	case *types.Array:
@@ -1003,4 +1011,11 @@ func (e *Exec) addAxioms(ts ...*smt.Term) {
 		}
 		e.Axioms = append(e.Axioms, t)
 	}
+}
+
+func (e *Exec) lenBound() uint64 {
+	if e.SmallLen > 0 {
+		return e.SmallLen
+	}
+	return maxLen
 }
